@@ -24,7 +24,8 @@ RULE = (
     "skip/stop position x every signal form are evaluated against reference orders computed from "
     "node.children by different algorithms. Non-trivial: branch has >= 4 nodes and depth >= 3 "
     "(zigzag/rtl/level skip differ from simpler orders); distinct = distinct (forest, start). Further parts: "
-    "forests over a 4-letter alphabet (clones and equal data on one level, plain and typed trees), and "
+    "deep trees (650-800 levels, below the depth of about 990 that the traversal code handles with the default recursion "
+    "limit) with directly written reference orders, forests over a 4-letter alphabet (clones and equal data on one level, plain and typed trees), and "
     "query-mutate-query histories: the same clauses are evaluated on ONE tree before a generated mutation history "
     "(adds, copies, moves, removals, sorting, re-keying, refused calls), after a generated subset of its steps and "
     "at its end (non-trivial there: >= 2 evaluations and >= 2 operations)."
@@ -323,6 +324,111 @@ def hyp_cases(draw, tier):
     return {"spec": spec, "start": draw(st.integers(-1, max(0, n - 1)))}
 
 
+def run_deep(case, rec):
+    """A deep tree (one inner node and `width` leaves per level), well below the depth the traversal code handles
+    on the unchanged tree (about 990 levels with the default recursion limit): every ordered method, and visit()
+    with one stop and one skip in the middle.  The reference orders are written down directly for this shape."""
+    from nutree import Tree
+
+    depth, width = case["depth"], case["width"]
+    tree = Tree("deep")
+    chain, leaves = [], []
+    parent = tree
+    for i in range(depth):
+        c = parent.add(f"c{i}")
+        lv = [parent.add(f"l{i}_{j}") for j in range(width)] if i > 0 else []
+        chain.append(c)
+        leaves.append(lv)  # leaves[i] = the leaf siblings of chain[i] (after it)
+        parent = c
+    # level k (0-based) = [chain[k]] + leaves[k]
+    levels = [[chain[k]] + leaves[k] for k in range(depth)]
+    pre = list(chain)
+    for k in range(depth - 1, 0, -1):
+        pre.extend(leaves[k])
+    post = [chain[depth - 1]]
+    for k in range(depth - 1, 0, -1):
+        post.extend(leaves[k])
+        post.append(chain[k - 1])
+    exp = {
+        IterMethod.PRE_ORDER: pre,
+        IterMethod.POST_ORDER: post,
+        IterMethod.LEVEL_ORDER: [n for lv in levels for n in lv],
+        IterMethod.LEVEL_ORDER_RTL: [n for lv in levels for n in reversed(lv)],
+        IterMethod.ZIGZAG: [n for k, lv in enumerate(levels) for n in (reversed(lv) if k % 2 else lv)],
+        IterMethod.ZIGZAG_RTL: [n for k, lv in enumerate(levels) for n in (lv if k % 2 else reversed(lv))],
+    }
+    # the same below the only top node (add_self: the start node first - last for post-order -, then its branch,
+    # whose first level is level 1 of the tree)
+    sub_levels = levels[1:]
+    exp_node = {
+        IterMethod.PRE_ORDER: pre,
+        IterMethod.POST_ORDER: post,
+        IterMethod.LEVEL_ORDER: [chain[0]] + [n for lv in sub_levels for n in lv],
+        IterMethod.LEVEL_ORDER_RTL: [chain[0]] + [n for lv in sub_levels for n in reversed(lv)],
+        IterMethod.ZIGZAG: [chain[0]] + [n for k, lv in enumerate(sub_levels) for n in (reversed(lv) if k % 2 else lv)],
+        IterMethod.ZIGZAG_RTL: [chain[0]] + [n for k, lv in enumerate(sub_levels) for n in (lv if k % 2 else reversed(lv))],
+    }
+    rec.nt(True)
+    rec.cls(f"depth={depth}")
+    top = chain[0]
+    for m, e in exp.items():
+        rec.evals += 2
+        try:
+            got = list(tree.iterator(m))
+            got2 = list(top.iterator(m, add_self=True))
+        except RecursionError:
+            rec.fail(f"deep:iter:{m.value}:RecursionError", {"depth": depth})
+            continue
+        if ids(got) != ids(e):
+            rec.fail(f"deep:iter:{m.value}", {"depth": depth, "len": len(got)})
+        if ids(got2) != ids(exp_node[m]):  # the whole tree hangs below the only top node
+            rec.fail(f"deep:node.iter:{m.value}:add_self", {"depth": depth, "len": len(got2)})
+    mid = chain[depth // 2]
+    for m in VISITABLE:
+        e = exp[m]
+        calls = []
+        rec.evals += 3
+        try:
+            with warnings.catch_warnings():
+                warnings.simplefilter("ignore")
+                tree.visit(lambda n, memo: calls.append(n), method=m)
+                if ids(calls) != ids(e):
+                    rec.fail(f"deep:visit:{m.value}:order", {"depth": depth, "len": len(calls)})
+                calls = []
+
+                def stop(n, memo):
+                    calls.append(n)
+                    if n is mid:
+                        return StopTraversal("v")
+
+                r = tree.visit(stop, method=m)
+                if r != "v" or ids(calls) != ids(e[: [id(x) for x in e].index(id(mid)) + 1]):
+                    rec.fail(f"deep:visit:{m.value}:stop", {"depth": depth, "len": len(calls), "ret": repr(r)})
+                if m != IterMethod.POST_ORDER:
+                    calls = []
+
+                    def skip(n, memo):
+                        calls.append(n)
+                        if n is mid:
+                            return SkipBranch
+
+                    tree.visit(skip, method=m)
+                    k0 = depth // 2
+                    below = {id(x) for k in range(k0 + 1, depth) for x in levels[k]}
+                    if ids(calls) != [i for i in ids(e) if i not in below]:
+                        rec.fail(f"deep:visit:{m.value}:skip", {"depth": depth, "len": len(calls)})
+        except RecursionError:
+            rec.fail(f"deep:visit:{m.value}:RecursionError", {"depth": depth})
+
+
+def deep_cases(tier):
+    yield {"depth": 700, "width": 0}
+    yield {"depth": 650, "width": 2}
+    if tier == "thorough":
+        yield {"depth": 800, "width": 1}
+        yield {"depth": 300, "width": 5}
+
+
 @st.composite
 def clone_cases(draw, tier):
     """Small alphabet: the same data under several parents (clones), also on one level, typed or plain."""
@@ -367,6 +473,7 @@ def requery_cases(draw, tier):
 PARTS = [
     Part("exhaustive", run, enum=enum_cases),
     Part("random-deep-wide", run, strategy=lambda tier: hyp_cases(tier), n={"quick": 100, "thorough": 20000}),
+    Part("deep", run_deep, enum=deep_cases),
     Part("clones-typed", run, strategy=lambda tier: clone_cases(tier), n={"quick": 300, "thorough": 20000}),
     Part("query-mutate-query", run_requery, strategy=lambda tier: requery_cases(tier), n={"quick": 300, "thorough": 20000}),
 ]
